@@ -32,19 +32,23 @@ def contexts(V, eos, maxlen):
     return cs + [c + (eos,) for c in short] + [(eos,) + tuple(a), (eos, eos)]
 
 
+def bound(tier, g, maxlen=None):
+    """String/context length bound: 4 (quick) / 5 (thorough) for |V| <= 2, one less for larger vocabularies."""
+    return maxlen or ((4 if tier == "quick" else 5) - (0 if len(g.V) <= 2 else 1))
+
+
 def make_cases(tier, seed, n_random=None, maxlen=None):
     rng = random.Random(seed)
-    maxlen = maxlen or (4 if tier == "quick" else 5)
-    n_random = n_random if n_random is not None else (250 if tier == "quick" else 3000)
+    n_random = n_random if n_random is not None else (250 if tier == "quick" else 1500)
     doms = domains.grammar_domain(tier, seed, n_random=n_random)
     cases = []
     for i, (name, g) in enumerate(doms):
         for alg in ALGS:
             sr = SEMIRINGS[i % 2]
-            cases.append(dict(name=name, g=g, sr=sr, alg=alg, rename="id", order=None, heap="real", pre_eos=False, maxlen=maxlen))
+            cases.append(dict(name=name, g=g, sr=sr, alg=alg, rename="id", order=None, heap="real", pre_eos=False, maxlen=bound(tier, g, maxlen)))
             pol = ["fifo", "lifo", "random"][i % 3]
             cases.append(dict(name=name, g=g, sr=SEMIRINGS[(i + 1) % 2], alg=alg, rename=["tuple", "rev"][i % 2],
-                              order=common.perm(len(g.rules), rng), heap=pol, pre_eos=(i % 4 == 0), maxlen=maxlen))
+                              order=common.perm(len(g.rules), rng), heap=pol, pre_eos=(i % 4 == 0), maxlen=bound(tier, g, maxlen)))
     return cases
 
 
@@ -121,14 +125,14 @@ def bounded(run):
     assert lmspec.selfcheck() > 0
     cases = make_cases(tier, run.seed)
     run.rule(f"grammars: corpus of adversarial shapes (nullable / unary cycles, left+right recursion, useless symbols, "
-             f"unproductive start, empty and eps-only language) + seeded random G(3,2,5,3) [thorough: G(4,3,7,3)]; "
+             f"unproductive start, empty and eps-only language) + 250 seeded random G(3,2,5,3) [thorough: 1500 of G(4,3,7,3)]; "
              f"weights over Float (positive, mapped to Boolean by BoolCFGLM) and over Boolean; both back ends "
-             f"alg in {list(ALGS)}; contexts: all strings over V up to length {4 if tier == 'quick' else 5} (viable or not) "
+             f"alg in {list(ALGS)}; contexts: all strings over V up to length {4 if tier == 'quick' else 5} (one less when |V| > 2; viable or not) "
              f"plus contexts that already contain EOS; variants: rule permutation, nonterminal renaming, agenda "
              f"tie-break policies, EOS added by BoolCFGLM or by the caller, PYTHONHASHSEED in the listed set; "
              f"non-trivial = some context has a viable continuation; distinct = (grammar, semiring, alg, variant). "
              f"NOT covered: weights over semirings other than Float/Boolean (BoolCFGLM's `x > 0` is undefined for them)")
-    seeds = (0, 1) if tier == "quick" else (0, 1, 2, 3, 4, 5, 6, 7)
+    seeds = (0, 1) if tier == "quick" else (0, 1, 2, 3)
     run.extra["hash_seeds"] = list(seeds)
     engine.run_cases(run, "props.C01", "check_case", cases, hash_seeds=seeds, per_case_timeout=60,
                      split=(tier == "quick"))
